@@ -20,6 +20,10 @@ pub struct HistCase {
     /// tracers appended to the master key before anything else (0 = tracing level 1)
     #[serde(default)]
     pub extra_tracers: u8,
+    /// temporary attributes created and deleted before the base structure, so that the attribute
+    /// ids of the history start beyond 127 (two-byte LEB128 ids inside rights)
+    #[serde(default)]
+    pub id_offset: u8,
 }
 
 #[derive(Clone, Debug)]
@@ -132,7 +136,8 @@ pub fn case_strategy(p: &Profile) -> impl Strategy<Value = HistCase> {
         struct_spec(p.max_dims, p.max_attrs, p.max_rights, p.odd_names),
         proptest::collection::vec(op_strategy(p), p.min_ops..=p.max_ops),
     )
-        .prop_flat_map(|(base, ops)| prop_oneof![6 => Just(0u8), 1 => Just(1u8), 1 => Just(2u8)].prop_map(move |extra_tracers| HistCase { base: base.clone(), ops: ops.clone(), extra_tracers }))
+        .prop_flat_map(|(base, ops)| prop_oneof![6 => Just(0u8), 1 => Just(1u8), 1 => Just(2u8)].prop_map(move |extra_tracers| (base.clone(), ops.clone(), extra_tracers)))
+        .prop_flat_map(|(base, ops, extra_tracers)| prop_oneof![7 => Just(0u8), 1 => Just(130u8)].prop_map(move |id_offset| HistCase { base: base.clone(), ops: ops.clone(), extra_tracers, id_offset }))
 }
 
 pub struct Outcome {
@@ -148,9 +153,18 @@ pub struct Outcome {
 }
 
 /// Apply the base structure to a fresh world (real API + model in lock-step) and update.
-pub fn setup_world(focus: &str, base: &StructSpec, extra_tracers: u8) -> Result<World, Abort> {
+pub fn setup_world(focus: &str, base: &StructSpec, extra_tracers: u8, id_offset: u8) -> Result<World, Abort> {
     let mut w = World::new(focus).map_err(Abort::Violation)?;
     w.raise_tracing_level(extra_tracers)?;
+    if id_offset > 0 {
+        w.add_dim_named("TMP", false)?;
+        for i in 0..id_offset {
+            w.add_attr_named("TMP", &format!("t{i}"), false, None)?;
+        }
+        w.del_dim_named("TMP")?;
+        w.trace.clear();
+        w.trace.push(format!("{id_offset} temporary attributes created and deleted (attribute ids now start at {id_offset})"));
+    }
     for d in &base.dims {
         let name_ix = crate::gen::DIM_NAMES.iter().position(|n| *n == d.name);
         match name_ix {
@@ -170,7 +184,7 @@ pub fn setup_world(focus: &str, base: &StructSpec, extra_tracers: u8) -> Result<
 }
 
 pub fn execute(focus: &str, case: &HistCase) -> Result<Outcome, Fail> {
-    let mut w = match setup_world(focus, &case.base, case.extra_tracers) {
+    let mut w = match setup_world(focus, &case.base, case.extra_tracers, case.id_offset) {
         Ok(w) => w,
         Err(Abort::Violation(f)) => return Err(f),
         Err(Abort::OffProperty(s)) => {
@@ -230,6 +244,9 @@ pub fn check_case(hc: &HistCheck, case: &HistCase, col: &Collector) -> CheckResu
             continue;
         }
         col.class_n("ops-executed", case.ops.len() as u64);
+        if case.id_offset > 0 {
+            col.class("hist:attribute-ids-beyond-127");
+        }
         if case.extra_tracers > 0 {
             col.class(&format!("hist:tracing-level-{}", 1 + case.extra_tracers));
         }
